@@ -84,6 +84,12 @@ func genC05(r *kit.Rand, tier kit.Tier) EngCase {
 	c.Pauses = r.Range(1, 3)
 	c.HoldSteps = r.Range(0, 6)
 
+	// on the parallel engine (whose Pause waits for the round and excludes other
+	// pausers) one run in three has two goroutines pausing at about the same time
+	if c.Parallel && r.Chance(1, 3) {
+		c.Pausers = 2
+	}
+
 	return c
 }
 
